@@ -45,7 +45,7 @@ var (
 	c01special = []string{"and", "or", "cond", "quote", "def", "mdef", "fn", "defn", "begin", "let", "letseq", "assert", "defmac", "macexpand", "syntaxQuote", "include", "for", "set", "break", "continue", "newScope", "package", "return", "_ls"}
 )
 
-var c01ArgKinds = []string{"1", "-9223372036854775808", "2.5", "\"s\"", "a", "a.b", "(list 1 2)", "[1 2]", "(hash k: 1)", "nil", "(fn [x] x)", "#z", "()", "[]", "{}", "'c'", "a:", "(quote q)", "12ULL", "NaN", "[a]", "(let)", "~x", "%y", "^(z)", "`raw`", "-1", "(and)", "true"}
+var c01ArgKinds = []string{"1", "-9223372036854775808", "2.5", "\"s\"", "a", "a.b", "(list 1 2)", "[1 2]", "(hash k: 1)", "nil", "(fn [x] x)", "#z", "()", "[]", "{}", "'c'", "a:", "(quote q)", "12ULL", "NaN", "[a]", "(let)", "~x", "%y", "^(z)", "`raw`", "-1", "(and)", "true", "(1 \\ 2)", "([] \\ 2)", "(a \\ b)", "%(1 \\ 2)"}
 
 func c01Setup(c *core.Ctx) {
 	c01once.Do(func() {
@@ -99,7 +99,7 @@ func init() {
 	core.Register(&core.Prop{
 		ID:    "C01",
 		Level: "exploration",
-		Rule: "inputs: (1) every string of 1 and 2 (quick) / 1..3 (thorough) tokens over a 103-token alphabet, and every infix block { … } with a body of 2 (a fifth of them 3; thorough all 3) tokens over a 36-token infix alphabet with 0-2 line/block comments after the brace, and 30 constructs nested 200 / 2000 (thorough 20000) levels deep, balanced, left open and over-closed (every bracket, quote, sigil and operator character, one literal of each numeric notation, string/char/raw-string openers, comment openers, every special-form name), with and without blanks between tokens; (2) every special form of the compiler and every name bound after StandardSetup (except the ones that end, block or leave the process by design) with 0..4 arguments over 29 argument kinds; (3) byte- and token-level mutations (delete, duplicate, swap, truncate, splice) of the tests/*.zy corpus; (4) generated programs in chaos mode (ill-typed calls, wrong arities, out-of-range indices, tokens replaced by brackets/sigils); (5) self-referential arrays/hashes printed, compared, encoded and converted; (6) sequences of hostile inputs against one long-lived interpreter; (7) lines fed to the real REPL (cmd/zygo -no-liner) and texts given to cmd/zygo -c. " +
+		Rule: "inputs: (1) every string of 1 and 2 (quick) / 1..3 (thorough) tokens over a 103-token alphabet, and every infix block { … } with a body of 2 (a fifth of them 3; thorough all 3) tokens over a 36-token infix alphabet with 0-2 line/block comments after the brace, and 30 constructs nested 200 / 2000 (thorough 20000) levels deep, balanced, left open and over-closed (every bracket, quote, sigil and operator character, one literal of each numeric notation, string/char/raw-string openers, comment openers, every special-form name), with and without blanks between tokens; (2) every special form of the compiler and every name bound after StandardSetup (except the ones that end, block or leave the process by design) with 0..4 arguments over 33 argument kinds (including dotted pairs and improper argument lists); (3) byte- and token-level mutations (delete, duplicate, swap, truncate, splice) of the tests/*.zy corpus; (4) generated programs in chaos mode (ill-typed calls, wrong arities, out-of-range indices, tokens replaced by brackets/sigils); (5) self-referential arrays/hashes printed, compared, encoded and converted; (6) sequences of hostile inputs against one long-lived interpreter; (7) lines fed to the real REPL (cmd/zygo -no-liner) and texts given to cmd/zygo -c. " +
 			"Entry points: EvalString, LoadString+Run, Parser.ParseTokens whole and in two pieces, EvalExpressions on the parsed forms, macro definition+expansion. Monitor: a recover() boundary around every call (anything reaching it escaped the library), child-process death attributed through the journal (fatal errors, exit), (nil,nil) results, results whose printing fails, and the VM step budget; a watchdog hit outside the VM loop that reproduces alone is a hang. non-trivial = every distinct input",
 		Assumptions: []string{
 			"names that end, block or leave the process by design (exit, stop, sys, system, sleep, channel operations, file writers, timeit, go) are not called; resource exhaustion by honestly expensive programs is classified inconclusive by the step budget",
@@ -335,6 +335,7 @@ func c01Run(c *core.Ctx, i int) *core.Result {
 			r.input(pre + "(for [(def i 0) (< i 2) (def i (+ i 1))] " + f + " (idw2 i " + f + "))\n(idw2 3 (begin " + f + "))\n")
 			res.Ev("form_shapes", 4)
 		}
+		r.input("(" + name + " 1 \\ 2)\n(" + name + " \\ 2)\n(" + name + " [1] \\ a)\n")
 		r.input("(" + name + " (" + name + "))\n")
 		r.input("(apply " + name + " [1 2])\n(map " + name + " [1 \"a\" nil])\n")
 		r.input("(defmac zm [x] ^(" + name + " ~x ~@x))\n(zm (1 2))\n(macexpand (zm (1 2)))\n")
